@@ -793,6 +793,41 @@ theorem sendumpPlan_sat (f : File) (gFeat gDensity mdefSen : Nat) :
   have : h.nSen = (mdefSen : Int) := Classical.byContradiction fun hx => hsen hx
   omega
 
+theorem mixwPlan_sat (f : File) (gFeat gDensity : Nat) :
+    (mixwPlan f gFeat gDensity).Sat fun o => 0 < o.nSen ∧ o.nFeat = gFeat ∧ o.nComp = gDensity ∧
+      o.n = o.nSen * o.nFeat * o.nComp := by
+  unfold mixwPlan
+  refine Sat.bind (parseHeader_sat (good_init f)) ?_
+  intro s0 h0
+  refine Sat.bind (get32_sat _ h0) ?_
+  rintro ⟨s1, a⟩ ⟨h1, _⟩
+  refine Sat.bind (get32_sat _ h1) ?_
+  rintro ⟨s2, b⟩ ⟨h2, _⟩
+  refine Sat.bind (get32_sat _ h2) ?_
+  rintro ⟨s3, c⟩ ⟨h3, _⟩
+  refine Sat.bind (get32_sat _ h3) ?_
+  rintro ⟨s4, d⟩ ⟨h4, _⟩
+  simp only
+  split
+  · trivial
+  split
+  · trivial
+  split
+  · trivial
+  rename_i c3
+  split
+  · trivial
+  have hn : (toI32 d).toNat = (toI32 a).toNat * gFeat * gDensity :=
+    Classical.byContradiction fun h => c3 (Or.inr (Or.inr (Or.inr h)))
+  refine Sat.bind (rowsInside_sat _ _ _ hn _ (Nat.le_refl _)) ?_
+  intro _ _
+  refine Sat.bind (getRows_sat _ _ _ s4 h4) ?_
+  intro _ _
+  refine ⟨?_, rfl, rfl, hn⟩
+  show 0 < (toI32 a).toNat
+  have : ¬ toI32 a ≤ 0 := fun h => c3 (Or.inl h)
+  omega
+
 /-! ### arbitrary op sequences -/
 
 /-- an op is admissible when its element size is positive (the loaders use 1, 2 and 4) -/
